@@ -17,6 +17,8 @@ def corpus(tier, seed):
         g.calls = True
         g.home = home
         g.events = True
+        g.arrays = True
+        g.casevars = (k % 3 == 1)
         g.no_division = False
         body = g.program(nstmts=rnd.randint(2, 7), setup=(k % 3 == 0), final_return=(home not in ('derived', 'state')))
         if home == 'derived':
